@@ -36,7 +36,17 @@ VARIABLES m,   \* m[i] = state of member i
           g    \* ghost: the caller's view (never shown to the implementation)
 
 vars == <<m, g>>
-View == [m |-> m]
+
+(* what is shown of a member: the attributes its class has (the other fields of the *)
+(* uniform member record never change for that class - invariant InertFields)       *)
+Shown(r) ==
+  CASE r.kind = "memory"   -> [kind |-> r.kind, nEp |-> r.nEp, nSteps |-> r.nSteps, stats |-> r.stats]
+    [] r.kind = "standard" -> [kind |-> r.kind, nEp |-> r.nEp, nSteps |-> r.nSteps, stats |-> r.stats,
+                               epochs |-> r.epochs, freq |-> r.freq, ck |-> r.ck, eloc |-> r.eloc]
+    [] r.kind = "orbax"    -> [kind |-> r.kind, nEp |-> r.nEp, nSteps |-> r.nSteps,
+                               epochs |-> r.epochs, freq |-> r.freq, ck |-> r.ck, last |-> r.last]
+    [] OTHER               -> [kind |-> r.kind, nEp |-> r.nEp, nSteps |-> r.nSteps]
+View == [m |-> [i \in DOMAIN m |-> Shown(m[i])]]
 
 (* member lists used by the configurations (cfg files cannot hold tuples): Kinds <- K_... *)
 K_memory   == <<"memory">>
@@ -278,12 +288,14 @@ NamesDistinct ==
     \A n \in 1..(Len(m[i].ck[k]) - 1) :
       EpochOf(m[i].kind, m[i].ck[k][n]) < EpochOf(m[i].kind, m[i].ck[k][n + 1])
 
-(* members that do not store / checkpoint keep nothing *)
+(* members that do not store / checkpoint keep nothing (justifies Shown) *)
 InertFields ==
   \A i \in Members :
+    /\ ~RecordsStats(m[i].kind) => \A k \in StatKeys : m[i].stats[k] = <<>>
     /\ ~Checkpoints(m[i].kind) =>
          \A k \in Keys : m[i].ck[k] = <<>> /\ m[i].epochs[k] = 0 /\ m[i].freq[k] = 0
     /\ m[i].kind # "orbax" => \A k \in Keys : m[i].last[k] = 0
+    /\ m[i].kind # "standard" => \A k \in Keys : m[i].eloc[k] = <<>>
 
 Stop == FALSE /\ UNCHANGED vars      \* NEXT for runs that evaluate invariants on Init only
 
